@@ -225,6 +225,10 @@ func c15GenFiles(T *sim.Tape) []*c15File {
 			if T.Intn(4, "goarch") == 0 {
 				bl.cfg = append(bl.cfg, "goarch: "+[]string{"amd64", "arm64"}[T.Intn(2, "archv")])
 			}
+			if T.Intn(8, "malformed-line") == 0 {
+				// a malformed line: reported on stderr with its position, the run continues (kept out of the permuted part)
+				bl.cfg = append(bl.cfg, []string{"BenchmarkBroken 1 x ns/op", "BenchmarkNoUnit 10 5", "Unit ns/op novalue", "BenchmarkIters many 5 ns/op"}[T.Intn(4, "malformed-kind")])
+			}
 			nsamp := 1 + T.Intn(12, "nsamples")
 			for _, n := range names {
 				if T.Intn(6, "missing") == 0 {
@@ -589,7 +593,8 @@ func c15ComparePerm(r *sim.Run, args []string, base, perm c15Out) {
 			r.Fail("line-permutation", "geomean-differs", "benchstat %q: table %d geomean %q became %q after permuting lines", args, i, bt[i].geo, p.geo)
 		}
 	}
-	bw, pw := c15StripRefs(base.Stderr), c15StripRefs(perm.Stderr)
+	// positioned syntax errors name the input file: the permuted copies live in perm/
+	bw, pw := c15StripRefs(base.Stderr), c15StripRefs(strings.ReplaceAll(perm.Stderr, "perm/", ""))
 	if strings.Join(bw, "\n") != strings.Join(pw, "\n") {
 		r.Fail("line-permutation", "warnings-differ", "benchstat %q: warnings differ after permuting lines:\n%s\n---\n%s", args, strings.Join(bw, "\n"), strings.Join(pw, "\n"))
 	}
